@@ -339,6 +339,79 @@ pub fn run(s: &dyn Subject, ctx: &Ctx) -> Option<DeclReport> {
             rep.sample(format!("{} :: from {:?}@{} -> Ok({:?})", spec.src.replace('\n', " "), p, show_doc(*f, d), r.unwrap()));
         }
     }
+    // in-place deserialization (a public serde entry point; `Vec<T>` uses it for existing elements) and the same document twice in a row:
+    // the place must end up holding exactly what `deserialize` yields, and keep its old - valid - value when the document is refused
+    if ctx.only_input.is_none() {
+        let seed = doc_raws(spec, ctx).into_iter().find(|r| matches!(s.ctor(r), Obs::Ok(_)));
+        if let Some(seed) = seed {
+            let seed_stored = match s.ctor(&seed) { Obs::Ok(v) => v, _ => unreachable!() };
+            // "guarded value": passes the validators as it stands and (built-in sanitizers only) is a sanitisation fixed point
+            let guarded_value = |v: &Value| -> bool {
+                let (allowed, _, _) = ctx.oracle.validate(spec, v);
+                let valid = allowed.iter().any(|o| *o == crate::oracle::Outcome::Accept);
+                let fixed = spec.sans.iter().any(|x| matches!(x, San::With(_))) || crate::oracle::sanitize(spec, v) == *v;
+                valid && fixed
+            };
+            let mut n = 0u64;
+            for (f, p, d) in work.iter().filter(|w| w.1 == Pos::Bare) {
+                let Some(first) = s.de(*f, *p, d) else { break };
+                // same document again: history must not matter
+                if let Some(second) = s.de(*f, *p, d) {
+                    rep.executions += 1;
+                    if second != first {
+                        rep.violate(&format!("{:?}:same-document-twice-differs", f), format!("{:?}@{}", p, show_doc(*f, d)), format!("{:?}", second), format!("{:?}", first), String::new());
+                    }
+                }
+                let Some((r, place)) = s.de_in_place(*f, d, &seed, false) else { break };
+                rep.executions += 1;
+                n += 1;
+                match (&first, &r) {
+                    (DeObs::Ok(v), Ok(())) => {
+                        if place != *v {
+                            rep.violate(&format!("{:?}:in-place-result-differs-from-deserialize", f), format!("{:?}@{}", p, show_doc(*f, d)), format!("{:?}", place), format!("{:?}", v), String::new());
+                        }
+                    }
+                    (DeObs::Err(_), Err(_)) | (DeObs::Panic(_), Err(_)) => {
+                        if place.len() != 1 || place[0] != seed_stored {
+                            rep.violate(&format!("{:?}:in-place-leaves-unguarded-value-after-error", f), format!("{:?}@{}", p, show_doc(*f, d)), format!("{:?}", place), seed_stored.show(), String::new());
+                        }
+                        rep.guard("in_place_refused");
+                    }
+                    (DeObs::Err(e), Ok(())) => {
+                        // `deserialize` can fail on trailing input that `deserialize_in_place` (no end check here) never looks at: then the value must still be a guarded one
+                        let ok = place.len() == 1 && guarded_value(&place[0]);
+                        if !ok {
+                            rep.violate(&format!("{:?}:in-place-accepts-what-deserialize-refuses", f), format!("{:?}@{}", p, show_doc(*f, d)), format!("{:?}", place), format!("Err({e})"), String::new());
+                        }
+                    }
+                    (_, Err(e)) => rep.violate(&format!("{:?}:in-place-refuses-what-deserialize-accepts", f), format!("{:?}@{}", p, show_doc(*f, d)), format!("Err({e})"), format!("{:?}", first), String::new()),
+                    (DeObs::Panic(_), Ok(())) => {}
+                }
+                if n % 7 == 0 {
+                    // through serde's Vec<T>::deserialize_in_place: existing elements are refreshed in place
+                    let mut vd = Vec::new();
+                    match f {
+                        Fmt::Json => { vd.push(b'['); vd.extend_from_slice(d); vd.push(b','); vd.extend_from_slice(d); vd.push(b']'); }
+                        _ => continue,
+                    }
+                    if let Some((rv, places)) = s.de_in_place(*f, &vd, &seed, true) {
+                        rep.executions += 1;
+                        let good = match (&first, &rv) {
+                            (DeObs::Ok(v), Ok(())) => v.len() == 1 && places.len() == 2 && places.iter().all(|x| *x == v[0]),
+                            (DeObs::Ok(_), Err(_)) => false,
+                            (_, Err(_)) => places.iter().all(|x| guarded_value(x)),
+                            (_, Ok(())) => places.iter().all(|x| guarded_value(x)),
+                        };
+                        if !good {
+                            rep.violate("Json:vec-in-place-holds-unguarded-or-wrong-values", format!("VecElem@{}", show_doc(*f, &vd)), format!("{:?} / {:?}", rv, places), format!("{:?}", first), String::new());
+                        }
+                        rep.guard("vec_in_place");
+                    }
+                }
+            }
+            rep.guard_add("in_place_documents", n);
+        }
+    }
     // probing deserializer: which entry point is used, and what the non-newtype visits hand out
     if let Some((log, produced)) = s.de_probe() {
         rep.executions += log.iter().filter(|l| l.contains("rejected") || l.contains("produced")).count() as u64;
